@@ -5,6 +5,6 @@ ws=/tmp/$1
 rm -rf $ws; mkdir -p $ws
 git -C /repo worktree prune
 git -C /repo worktree add -q -B ws-$1 $ws/repo HEAD
-rsync -a --exclude .git --exclude work --exclude replays --exclude 'harness/target' --exclude 'harness-tokio/target' --exclude 'lean/.lake' /verif/ $ws/verif/
+rsync -a --exclude .git --exclude work --exclude replays --exclude 'harness/target' --exclude 'harness-tokio/target' --exclude 'harness/target-one' --exclude 'lean/.lake' /verif/ $ws/verif/
 git -C /verif rev-parse --short HEAD > $ws/verif/.base
 echo $ws
